@@ -43,7 +43,7 @@ def rh_inputs(ctx, v):
     ]
     out = []
     for stxt, skind in scores:
-        for vec, vkind in ((valid, "valid"), (valid2, "valid"), (invalid, "malformed"), (missing, "mandatory"), ("", "malformed"), (body if pre else "CVSS:9.9/" + body, "valid" if not pre else "malformed")):
+        for vec, vkind in ((valid, "valid"), (valid2, "valid"), (invalid, "malformed"), (missing, "mandatory"), ("", "malformed"), (body if pre else "CVSS:9.9/" + body, "valid" if not pre else "malformed"), (" " + valid, "malformed"), (valid + "\n", "malformed")):
             s = stxt + "/" + vec
             tok = token_of(ctx, v, vec)
             vk = tok[0]
